@@ -300,6 +300,81 @@ pub fn rom_on_ref(block: &[u8], req: &LdRequest, pokes: &[(u16, Vec<u8>)]) -> Op
     None
 }
 
+/// Loading over the loader's own stack frame (the classic auto-start trick): the two data bytes
+/// land on the word LD-BYTES pushed for its exit path (0x053F at SP-2 of the caller's frame), so
+/// the routine leaves through the loaded address. What the ROM does is taken from the genuine ROM
+/// routine executed on RefZ80 with the ideal waveform; the fast loader must leave the machine at
+/// the same place (PC, SP) with the same bytes in the frame.
+fn load_over_stack(ctx: &Ctx) {
+    const X: u16 = 0x9000;
+    for m128 in [false, true] {
+        for (name, ix, data) in [("exit-word", STACK.wrapping_sub(2), vec![X as u8, (X >> 8) as u8]), ("exit-word+return-address", STACK.wrapping_sub(2), vec![X as u8, (X >> 8) as u8, 0x00, 0x91]), ("return-address-only", STACK, vec![0x00, 0x91])] {
+            let block = std_block(0xFF, &data);
+            let req = LdRequest { a: 0xFF, load: true, ix, de: data.len() as u16 };
+            // reference: the ROM itself
+            let rom = rig::read_file("/repo/rustzx-core/src/zx/roms/48.rom");
+            let mut img = vec![0u8; 65536];
+            img[..16384].copy_from_slice(&rom);
+            img[STACK as usize] = RET_ADDR as u8;
+            img[STACK as usize + 1] = (RET_ADDR >> 8) as u8;
+            let edges = ideal_edges(&[block.clone()], 50_000);
+            let dummy = |_a: u16| 0u8;
+            let io = |p: u16, t: u64| if p & 1 == 0 { 0xBFu8 | if level_at(&edges, t) { 0x40 } else { 0 } } else { 0xFF };
+            let mut bus = RefMachine::new(ULA48, Contended::new(false, 0), 0, &dummy, &io);
+            bus.mem64 = Some(img);
+            let mut rc = RefZ80::new();
+            rc.pc = 0x0556;
+            rc.sp = STACK;
+            rc.a = req.a;
+            rc.f = 1;
+            rc.ix = req.ix;
+            rc.set_de(req.de);
+            rc.im = 1;
+            let limit = edges.last().copied().unwrap_or(0) + 7_000_000;
+            let stops = [RET_ADDR, X, 0x9100];
+            let mut want: Option<(u16, u16)> = None;
+            while bus.t < limit {
+                rc.step(&mut bus);
+                if stops.contains(&rc.pc) {
+                    want = Some((rc.pc, rc.sp));
+                    break;
+                }
+            }
+            let want = match want {
+                Some(w) => w,
+                None => {
+                    eprintln!("MACHINERY: the ROM on RefZ80 did not leave LD-BYTES for the {} case", name);
+                    std::process::exit(2);
+                }
+            };
+            // implementation: fast load
+            let mut e = machine(m128, true);
+            e.set_debug_interface(VDebug::at(&stops));
+            if e.load_tape(Tape::Tap(VAsset::new(tap_image(&[block.clone()])))).is_err() {
+                continue;
+            }
+            issue_request(&mut e, &req);
+            rig::poke(&mut e, X, &[0x76]);
+            rig::poke(&mut e, 0x9100, &[0x76]);
+            let returned = run_to_ret(&mut e, 12);
+            let v = rig::regs_view(e.verif_cpu());
+            ctx.add_eval(1);
+            let case = json!({"kind":"load-over-stack","m128":m128,"variant":name});
+            if !returned || (v.pc, v.sp) != want {
+                ctx.violation(
+                    &format!("C10:load-over-stack:{}", name),
+                    &format!(
+                        "{} machine, LOAD of {} bytes to {:04x} (over the loader's own stack frame, caller's SP={:04x}): the fast loader {} PC={:04x} SP={:04x}; the ROM loader leaves through PC={:04x} SP={:04x}",
+                        if m128 { "128K" } else { "48K" }, data.len(), ix, STACK, if returned { "left at" } else { "did not reach a stop address, last" }, v.pc, v.sp, want.0, want.1
+                    ),
+                    case,
+                );
+            }
+            ctx.outcome(0x57AC ^ (want.0 as u64) << 8 ^ m128 as u64);
+        }
+    }
+}
+
 fn validate_ref_ld_bytes(ctx: &Ctx, quick: bool) -> bool {
     let mut cases: Vec<(Vec<u8>, LdRequest, Vec<(u16, Vec<u8>)>)> = Vec::new();
     let lens: &[usize] = if quick { &[1, 2, 4] } else { &[1, 2, 3, 4, 21] };
@@ -540,6 +615,66 @@ pub fn realtime_case(ctx: &Ctx, c: &Case, verbose: bool) -> u64 {
     digest
 }
 
+/// Both loading paths on ONE tape: a fast-load request gives up inside a block (wrong flag byte,
+/// deck stopped, fast load on), then the deck is started and the NEXT block is loaded by the ROM in
+/// real time. Each path must leave the tape where the other expects it: the second request gets
+/// exactly the second block. First-block lengths on both sides of the 128-byte read window.
+pub fn fast_then_realtime(ctx: &Ctx) {
+    for m128 in [false, true] {
+        for len1 in [100usize, 129, 300] {
+            let b1 = block_of(len1, 0xFF, true);
+            let b2 = std_block(0xFF, &[0xDE, 0xAD, 0xBE, 0xEF]);
+            let c = Case {
+                m128,
+                blocks: vec![b1.clone(), b2.clone()],
+                requests: vec![LdRequest { a: 0x00, load: true, ix: 0x9000, de: 17 }, LdRequest { a: 0xFF, load: true, ix: 0xA000, de: 4 }],
+                pokes: vec![],
+                tail: vec![],
+            };
+            let mut e = machine(m128, true);
+            if e.load_tape(Tape::Tap(VAsset::new(image_of(&c)))).is_err() {
+                continue;
+            }
+            // request 1: served by the fast loader (deck stopped), rejected on the flag byte
+            issue_request(&mut e, &c.requests[0]);
+            let before1 = ram_image(&e);
+            let ret1 = run_to_ret(&mut e, 12);
+            let exp1 = ref_ld_bytes(&b1, &c.requests[0], &|a| before1[a as usize]);
+            let v1 = rig::regs_view(e.verif_cpu());
+            ctx.add_eval(1);
+            if !ret1 || (v1.af & 1 != 0) != exp1.carry {
+                ctx.violation("C10:fast-then-realtime:first-request", &format!("first (fast) request on a block of {} bytes: returned={} carry={} expected carry={}", len1, ret1, v1.af & 1, exp1.carry), case_json(&c, "fast-then-realtime"));
+                continue;
+            }
+            // request 2: deck running -> the ROM loads in real time
+            e.play_tape();
+            issue_request(&mut e, &c.requests[1]);
+            let before = ram_image(&e);
+            let returned = run_to_ret(&mut e, 700);
+            let v = rig::regs_view(e.verif_cpu());
+            let after = ram_image(&e);
+            let exp = ref_ld_bytes(&b2, &c.requests[1], &|a| before[a as usize]);
+            let mut want = before.clone();
+            for (a, b) in exp.writes.iter() {
+                want[*a as usize] = *b;
+            }
+            let carry = v.af & 1 != 0;
+            let mem_ok = (0x4000..65536usize).all(|a| after[a] == want[a] || near_stack(a));
+            if !returned || carry != exp.carry || v.ix != exp.ix || v.de != exp.de || !mem_ok {
+                ctx.violation(
+                    &format!("C10:fast-then-realtime:{}", if !returned { "no-return" } else if carry != exp.carry { "carry" } else if !mem_ok { "memory" } else { "ix-de" }),
+                    &format!(
+                        "{} machine: a fast-load request gave up inside a block of {} bytes, then the deck was started and the next block (4 data bytes) requested from the ROM loader in real time: returned={} IX={:04x} DE={:04x} carry={}; the second block gives IX={:04x} DE={:04x} carry={}",
+                        if m128 { "128K" } else { "48K" }, len1, returned, v.ix, v.de, carry, exp.ix, exp.de, exp.carry
+                    ),
+                    case_json(&c, "fast-then-realtime"),
+                );
+            }
+            ctx.outcome(0xFA57 ^ (len1 as u64) << 1 ^ m128 as u64);
+        }
+    }
+}
+
 pub fn realtime_vs_fast(ctx: &Ctx) {
     let quick = !ctx.thorough();
     let mut cases: Vec<Case> = Vec::new();
@@ -606,6 +741,18 @@ pub fn run(tier: Tier, seed: u64, replay: Option<String>) -> i32 {
     let ctx = Ctx::new("C10", tier, seed, "model_checking");
     if let Some(path) = replay {
         let v: serde_json::Value = serde_json::from_slice(&rig::read_file(&path)).expect("replay json");
+        if v["case"]["kind"] == "fast-then-realtime" {
+            fast_then_realtime(&ctx);
+            let n = ctx.violation_classes();
+            println!("replay: {} violation class(es) reproduced", n);
+            return (n > 0) as i32;
+        }
+        if v["case"]["kind"] == "load-over-stack" {
+            load_over_stack(&ctx);
+            let n = ctx.violation_classes();
+            println!("replay: {} violation class(es) reproduced", n);
+            return (n > 0) as i32;
+        }
         let c = case_from_json(&v["case"]);
         println!("replay: {:?}", c);
         run_fast_case(&ctx, &c, true);
@@ -632,11 +779,13 @@ pub fn run(tier: Tier, seed: u64, replay: Option<String>) -> i32 {
         ctx.add_traces(1);
     });
     ctx.add_states(n as u64);
+    load_over_stack(&ctx);
+    fast_then_realtime(&ctx);
     ctx.sample(json!(case_json(&cases[n / 3], "fast")));
     ctx.note("cases", json!(n));
     ctx.note("not_judged", json!("bytes in the 24 bytes below the caller's stack pointer (ROM call frames); TAP files truncated inside a block (C15)"));
     ctx.finish(
-        "tapes: block lengths around the 128-byte buffer boundaries x flag {00,FF,55} x checksum right/wrong, followed by a sentinel block; requests: A {00,FF,55} x LOAD/VERIFY x DE {0,1,n-1,n,n+1,n+2,FFxx (flag test skipped)} x IX {RAM, ROM/RAM edge, (thorough) wrap, screen}, VERIFY against equal memory and memory differing at the first/middle/last byte; request sequences of up to 4 incl. past the end of the tape and on an empty tape; both machines. Each request is issued to the real ROM entry 0556h on the real Emulator with fast loading and compared (all 64K of memory, IX, DE, carry) with RefLdBytes, which is validated every run against the genuine ROM executed on RefZ80 against the ideal waveform. states = cases, transitions = requests",
+        "tapes: block lengths around the 128-byte buffer boundaries x flag {00,FF,55} x checksum right/wrong, followed by a sentinel block; requests: A {00,FF,55} x LOAD/VERIFY x DE {0,1,n-1,n,n+1,n+2,FFxx (flag test skipped)} x IX {RAM, ROM/RAM edge, (thorough) wrap, screen}, VERIFY against equal memory and memory differing at the first/middle/last byte; request sequences of up to 4 incl. past the end of the tape and on an empty tape; loads over the loader's own stack frame (exit word, return address) with the exit PC/SP taken from the genuine ROM on RefZ80; a fast request that gives up inside a block followed by a real-time load of the next block; both machines. Each request is issued to the real ROM entry 0556h on the real Emulator with fast loading and compared (all 64K of memory, IX, DE, carry) with RefLdBytes, which is validated every run against the genuine ROM executed on RefZ80 against the ideal waveform. states = cases, transitions = requests",
         true,
         &["RefLdBytes validated against the 48K ROM on RefZ80 + ideal waveform", "the second request of every case loads a sentinel block, which checks that exactly one block was consumed"],
     )
